@@ -85,7 +85,7 @@ def run_helper_case(case):
 
 # --------------------------------------------------------------------------- eval
 
-EVAL_SPANS = ['range', 'list_str', 'np_int', 'np_str', 'pd_int', 'pd_str', 'pd_year', 'pd_quarter', 'pd_day']
+EVAL_SPANS = ['range', 'range_zero', 'list_str', 'np_int', 'np_str', 'np_unsorted', 'pd_int', 'pd_str', 'pd_year', 'pd_quarter', 'pd_day']  # range_zero: negative integer labels and the label 0
 
 
 def label_text(kind, label):
@@ -211,7 +211,28 @@ def run_names_case(case):
     r = c.eval('exp(log(X))')
     if not np.allclose(r, c.X):
         out.append(('names:helpers-available', c.X.tolist(), repr(r), 'exp/log helpers'))
+    # a variable is bound to its series whatever it is called: also when the name is an attribute, property or method of the container
+    L = [label_text(kind, l) for l in labels]
+    for nm in ATTRIBUTE_NAMES:
+        c2, _ = make_container(kind)
+        try:
+            c2.add_variable(nm, np.arange(N) * 2.0 + 5)
+        except Exception:
+            continue
+        series = np.arange(N) * 2.0 + 5
+        for expr, want in (('%s / 2' % nm, series / 2), ('%s[1] + X' % nm, series[1] + c2.X), ('sum(%s[`%s`:`%s`])' % (nm, L[1], L[3]), float(np.sum(series[1:4]))),
+                           ('lag(%s)[2]' % nm, series[1])):
+            try:
+                got = c2.eval(expr, locals={'sum': total})
+            except Exception as e:
+                got = e
+            if isinstance(got, Exception) or canon(np.asarray(got, dtype=float)) != canon(np.asarray(want, dtype=float)):
+                out.append(('names:attribute-like-variable', np.asarray(want).tolist(), repr(got)[:120], 'the variable %r is not bound to its series in %r' % (nm, expr)))
+                break
     return out
+
+
+ATTRIBUTE_NAMES = ['size', 'values', 'span', 'index', 'nbytes', 'copy', 'eval', 'strict', 'dtypes', 'reindex', 'add_variable', 'to_dataframe', 'replace_values', 'get_closest_match']
 
 
 def blocks(tier, seed):
